@@ -249,6 +249,24 @@ Proof.
     destruct (i_sent_cn i) eqn:Sc; inversion H; subst; repeat split; auto; try discriminate.
 Qed.
 
+Lemma read_wantread : forall i n i1 wd, read D i n = (i1, SWantRead, wd) ->
+  i1 = i /\ i_plain i = [] /\ i_got_cn i = false /\ parse1 D (i_rbio i) = None.
+Proof.
+  intros i n i1 wd H. unfold read in H.
+  destruct (negb (Nat.eqb (i_stage i) 2)); [discriminate |].
+  destruct (i_plain i); [| discriminate].
+  destruct (i_got_cn i); [discriminate |].
+  destruct (parse1 D (i_rbio i)) as [[[t p] rest] |].
+  - destruct (N.eqb t T_DATA); [destruct p; discriminate |]. destruct (N.eqb t T_ALERT); discriminate.
+  - unfold starved in H. destruct (i_reof i); inversion H; subst; auto.
+Qed.
+
+Lemma write_unchanged : forall i p i1 o wd, write E M i p = (i1, o, wd) -> i1 = i.
+Proof.
+  intros i p i1 o wd H. unfold write in H.
+  destruct (negb (Nat.eqb (i_stage i) 2)); [inversion H; reflexivity |]. destruct (i_sent_cn i); inversion H; reflexivity.
+Qed.
+
 End IdealProgressFacts.
 
 (* ------------------------------------------------------------------ one transition of one endpoint *)
@@ -269,13 +287,24 @@ Definition shp (e : endpoint) : shared := y_sh (e_sys e).
 Lemma pump_inv : forall e i w g nin nout l e' nin' nout',
   pump e i w g nin nout l = Some (e', nin', nout') ->
   exists acts, sys_step (e_sys e) l = Some (e_sys e', acts) /\
-    i_stage (e_ideal e') = i_stage i /\ i_sent_cn (e_ideal e') = i_sent_cn i /\ nin' = nin.
+    i_stage (e_ideal e') = i_stage i /\ i_sent_cn (e_ideal e') = i_sent_cn i /\ nin' = nin /\
+    i_rbio (e_ideal e') = i_rbio i ++ fed (map snd acts) /\ i_plain (e_ideal e') = i_plain i /\ i_got_cn (e_ideal e') = i_got_cn i.
 Proof.
   intros e i w g nin nout l e' nin' nout' H. unfold TlsDuplex.pump in H.
   destruct (sys_step (e_sys e) l) as [[y acts] |] eqn:S; try discriminate.
   destruct (apply_acts i nout acts) as [i2 o2] eqn:A. inversion H; subst. cbn.
-  destruct (apply_acts_spec _ _ _ _ _ A) as [_ [_ [_ [S1 [_ [S2 _]]]]]]. eauto.
+  destruct (apply_acts_spec _ _ _ _ _ A) as [_ [R [P [S1 [G [S2 _]]]]]]. eauto 12.
 Qed.
+
+(* the ideal SSL object along one task step *)
+Definition ideal_rel (e e' : endpoint) (tk : task) (lb : lab) : Prop :=
+  (exists i1 o wd, lb = LSsl {| a_meth := t_meth tk; a_arg := expected_arg (t_meth tk) (t_buf tk) (shp e); a_out := o; a_wdelta := wd |} /\
+      call E D M (e_ideal e) (t_meth tk) (t_buf tk) (hd [] (deque (shp e))) = (i1, o, wd) /\
+      i_stage (e_ideal e') = i_stage i1 /\ i_sent_cn (e_ideal e') = i_sent_cn i1 /\
+      i_rbio (e_ideal e') = i_rbio i1 /\ i_plain (e_ideal e') = i_plain i1 /\ i_got_cn (e_ideal e') = i_got_cn i1) \/
+  ((forall x, lb <> LSsl x) /\ i_stage (e_ideal e') = i_stage (e_ideal e) /\ i_sent_cn (e_ideal e') = i_sent_cn (e_ideal e) /\
+   i_rbio (e_ideal e') = i_rbio (e_ideal e) ++ rcvd lb /\ i_plain (e_ideal e') = i_plain (e_ideal e) /\
+   i_got_cn (e_ideal e') = i_got_cn (e_ideal e)).
 
 (* a transition that is not a new application call is one step of one task *)
 Lemma ep_step_task : forall e nin nout l e' nin' nout',
@@ -287,51 +316,57 @@ Lemma ep_step_task : forall e nin nout l e' nin' nout',
     shp e' = s1 /\
     tasks_of e' = set_nth t {| t_meth := t_meth tk; t_buf := t_buf tk; t_pc := p1 |} (tasks_of e) /\
     sys_step (e_sys e) (SStep t lb) = Some (e_sys e', map (fun x => (t, x)) a1) /\
-    ((exists i1 o wd, lb = LSsl {| a_meth := t_meth tk; a_arg := expected_arg (t_meth tk) (t_buf tk) (shp e); a_out := o; a_wdelta := wd |} /\
-        call E D M (e_ideal e) (t_meth tk) (t_buf tk) (hd [] (deque (shp e))) = (i1, o, wd) /\
-        i_stage (e_ideal e') = i_stage i1 /\ i_sent_cn (e_ideal e') = i_sent_cn i1) \/
-     ((forall x, lb <> LSsl x) /\ i_stage (e_ideal e') = i_stage (e_ideal e) /\ i_sent_cn (e_ideal e') = i_sent_cn (e_ideal e))).
+    ideal_rel e e' tk lb.
 Proof.
   intros e nin nout l e' nin' nout' H Hns.
   assert (Gen : forall i w g nin0 t lb,
             pump e i w g nin0 nout (SStep t lb) = Some (e', nin', nout') -> clab lb = true ->
+            (forall tk x, nth_error (tasks_of e) t = Some tk -> lb = LSsl x ->
+                          a_meth x = t_meth tk /\ a_arg x = expected_arg (t_meth tk) (t_buf tk) (shp e)) ->
             exists tk s1 p1 a1,
               nth_error (tasks_of e) t = Some tk /\
               step (t_meth tk) (t_buf tk) (shp e) (t_pc tk) lb = Some (s1, p1, a1) /\
               shp e' = s1 /\
               tasks_of e' = set_nth t {| t_meth := t_meth tk; t_buf := t_buf tk; t_pc := p1 |} (tasks_of e) /\
               sys_step (e_sys e) (SStep t lb) = Some (e_sys e', map (fun x => (t, x)) a1) /\
-              i_stage (e_ideal e') = i_stage i /\ i_sent_cn (e_ideal e') = i_sent_cn i).
-  { intros i w g nin0 t lb Hp Hc. destruct (pump_inv _ _ _ _ _ _ _ _ _ _ Hp) as [acts [S [A [B _]]]].
+              i_stage (e_ideal e') = i_stage i /\ i_sent_cn (e_ideal e') = i_sent_cn i /\
+              i_rbio (e_ideal e') = i_rbio i ++ rcvd lb /\ i_plain (e_ideal e') = i_plain i /\ i_got_cn (e_ideal e') = i_got_cn i).
+  { intros i w g nin0 t lb Hp Hc Hmt. destruct (pump_inv _ _ _ _ _ _ _ _ _ _ Hp) as [acts [S [A [B [_ [R [P G]]]]]]].
     destruct (sys_step_SStep_inv fl _ _ _ _ _ S) as [tk [s1 [p1 [a1 [Hn [St [Hsh [Ha Ht]]]]]]]].
-    exists tk, s1, p1, a1. subst acts. unfold tasks_of, shp. auto 10. }
+    exists tk, s1, p1, a1. subst acts. rewrite map_snd_tag in R.
+    assert (Hnd : ~ In ADesync a1).
+    { intros Hin. destruct (step_desync_only_on_mismatch fl _ _ _ _ _ _ _ _ St Hin) as [x [Hl [_ Hck]]].
+      destruct (Hmt tk x Hn Hl) as [Hm Harg]. unfold shp in Harg. rewrite Hm, Harg, meth_eqb_refl, Nat.eqb_refl in Hck. discriminate. }
+    destruct (step_flow fl _ _ _ _ _ _ _ _ St Hnd) as [_ Fd]. rewrite Fd in R.
+    unfold tasks_of, shp. auto 12. }
   destruct l as [m n data | t | t | t | t k]; cbn [TlsDuplex.ep_step] in H.
   - exfalso. eapply Hns; reflexivity.
   - destruct (nth_error (y_tasks (e_sys e)) t) as [tk |] eqn:Hn; try discriminate.
     destruct (call E D M (e_ideal e) (t_meth tk) (t_buf tk) (hd [] (deque (y_sh (e_sys e))))) as [[i1 o] wd] eqn:C.
-    destruct (Gen _ _ _ _ _ _ H eq_refl) as [tk' [s1 [p1 [a1 [Hn' [St [Hsh [Ht [Hs [A B]]]]]]]]]].
+    destruct (Gen _ _ _ _ _ _ H eq_refl) as [tk' [s1 [p1 [a1 [Hn' [St [Hsh [Ht [Hs [A [B [R [P G]]]]]]]]]]]]].
+    { intros tk0 x Hn0 Hx. unfold tasks_of in Hn0. rewrite Hn in Hn0. inversion Hn0; subst tk0. inversion Hx; subst. split; reflexivity. }
     unfold tasks_of in Hn'. rewrite Hn in Hn'. inversion Hn'; subst tk'.
     exists t, tk, (LSsl {| a_meth := t_meth tk; a_arg := expected_arg (t_meth tk) (t_buf tk) (y_sh (e_sys e)); a_out := o; a_wdelta := wd |}), s1, p1, a1.
     split; [unfold tasks_of; exact Hn |]. split; [reflexivity |]. split; [exact St |].
     split; [intros y Hy; inversion Hy; subst; split; reflexivity |].
     split; [exact Hsh |]. split; [exact Ht |]. split; [exact Hs |].
-    left. exists i1, o, wd. auto.
-  - destruct (Gen _ _ _ _ _ _ H eq_refl) as [tk [s1 [p1 [a1 [Hn [St [Hsh [Ht [Hs [A B]]]]]]]]]].
-    exists t, tk, LGo, s1, p1, a1. 
+    left. exists i1, o, wd. cbn [rcvd] in R. rewrite app_nil_r in R. auto 10.
+  - destruct (Gen _ _ _ _ _ _ H eq_refl) as [tk [s1 [p1 [a1 [Hn [St [Hsh [Ht [Hs [A [B [R [P G]]]]]]]]]]]]]; [intros; discriminate |].
+    exists t, tk, LGo, s1, p1, a1.
     split; [exact Hn |]. split; [reflexivity |]. split; [exact St |]. split; [intros y Hy; discriminate |].
     split; [exact Hsh |]. split; [exact Ht |]. split; [exact Hs |].
-    right. split; [intros y Hy; discriminate |]. split; assumption.
-  - destruct (Gen _ _ _ _ _ _ H eq_refl) as [tk [s1 [p1 [a1 [Hn [St [Hsh [Ht [Hs [A B]]]]]]]]]].
-    exists t, tk, (LT TSent), s1, p1, a1. 
+    right. split; [intros y Hy; discriminate |]. auto 10.
+  - destruct (Gen _ _ _ _ _ _ H eq_refl) as [tk [s1 [p1 [a1 [Hn [St [Hsh [Ht [Hs [A [B [R [P G]]]]]]]]]]]]]; [intros; discriminate |].
+    exists t, tk, (LT TSent), s1, p1, a1.
     split; [exact Hn |]. split; [reflexivity |]. split; [exact St |]. split; [intros y Hy; discriminate |].
     split; [exact Hsh |]. split; [exact Ht |]. split; [exact Hs |].
-    right. split; [intros y Hy; discriminate |]. split; assumption.
+    right. split; [intros y Hy; discriminate |]. auto 10.
   - destruct (Nat.leb 1 k && Nat.leb k (length nin)); try discriminate.
-    destruct (Gen _ _ _ _ _ _ H eq_refl) as [tk [s1 [p1 [a1 [Hn [St [Hsh [Ht [Hs [A B]]]]]]]]]].
-    exists t, tk, (LT (TRcvd (firstn k nin))), s1, p1, a1. 
+    destruct (Gen _ _ _ _ _ _ H eq_refl) as [tk [s1 [p1 [a1 [Hn [St [Hsh [Ht [Hs [A [B [R [P G]]]]]]]]]]]]]; [intros; discriminate |].
+    exists t, tk, (LT (TRcvd (firstn k nin))), s1, p1, a1.
     split; [exact Hn |]. split; [reflexivity |]. split; [exact St |]. split; [intros y Hy; discriminate |].
     split; [exact Hsh |]. split; [exact Ht |]. split; [exact Hs |].
-    right. split; [intros y Hy; discriminate |]. split; assumption.
+    right. split; [intros y Hy; discriminate |]. auto 10.
 Qed.
 
 End EndpointFacts.
@@ -350,6 +385,12 @@ Notation flush_pc := (flush_pc fl).
 Notation after_flush := (after_flush fl).
 
 Definition pending_reader (tk : task) : bool := pending tk && reader_like (t_meth tk).
+(* a recv() that got WANT_READ and has not called the SSL object again *)
+Definition readwait (p : pc) : bool :=
+  match p with
+  | PFlush (KRead _) | PSending (KRead _) | PRecvWait _ | PRecving => true
+  | _ => false
+  end.
 
 Record EInv (e : endpoint) : Prop := {
   ei_lock : LockInv (e_sys e);
@@ -365,7 +406,11 @@ Record EInv (e : endpoint) : Prop := {
   ei_s2 : (exists t tk, nth_error (tasks_of e) t = Some tk /\ t_meth tk <> MHandshake) -> i_stage (e_ideal e) = 2;
   ei_le : i_stage (e_ideal e) <= 2;
   ei_cn : i_sent_cn (e_ideal e) = false;
-  ei_nu : forall t tk, nth_error (tasks_of e) t = Some tk -> t_meth tk <> MUnwrap
+  ei_nu : forall t tk, nth_error (tasks_of e) t = Some tk -> t_meth tk <> MUnwrap;
+  (* a recv() waiting for the network has nothing it could return: WANT_READ meant "no complete record", and since
+     then only itself could have fed the SSL object *)
+  ei_rd : forall t tk, nth_error (tasks_of e) t = Some tk -> t_meth tk = MRead -> readwait (t_pc tk) = true ->
+          i_plain (e_ideal e) = [] /\ i_got_cn (e_ideal e) = false /\ parse1 D (i_rbio (e_ideal e)) = None
 }.
 
 Lemma EInv_init : forall client, EInv (ep0 client).
@@ -393,12 +438,7 @@ Proof.
   intros s v. destruct (flush_pc_cases fl s (KRet v)) as [-> | [_ [[n [X _]] | [v' [X ->]]]]]; try discriminate; auto.
 Qed.
 
-(* the ideal SSL object along one task step *)
-Definition ideal_rel (e e' : endpoint) (tk : task) (lb : lab) : Prop :=
-  (exists i1 o wd, lb = LSsl {| a_meth := t_meth tk; a_arg := expected_arg (t_meth tk) (t_buf tk) (shp e); a_out := o; a_wdelta := wd |} /\
-      call E D M (e_ideal e) (t_meth tk) (t_buf tk) (hd [] (deque (shp e))) = (i1, o, wd) /\
-      i_stage (e_ideal e') = i_stage i1 /\ i_sent_cn (e_ideal e') = i_sent_cn i1) \/
-  ((forall x, lb <> LSsl x) /\ i_stage (e_ideal e') = i_stage (e_ideal e) /\ i_sent_cn (e_ideal e') = i_sent_cn (e_ideal e)).
+Notation ideal_rel := (ideal_rel E D M).
 
 Lemma EInv_task_step : forall e e' t tk lb s1 p1 a1,
   EInv e -> nth_error (tasks_of e) t = Some tk -> clab lb = true ->
@@ -420,7 +460,7 @@ Proof.
                  (forall x, lb = LSsl x -> err_out (a_out x) = true -> a_wdelta x = []) /\
                  (forall x, lb = LSsl x -> m = MHandshake -> ok_out (a_out x) = true -> i_stage (e_ideal e') = 2) /\
                  (forall x, lb = LSsl x -> m = MWrite -> exists v, a_out x = SOk v)).
-  { destruct Hid as [[i1 [o [wd [Hl [Cl [S1 S2]]]]]] | [Hl [S1 S2]]].
+  { destruct Hid as [[i1 [o [wd [Hl [Cl [S1 [S2 _]]]]]]] | [Hl [S1 [S2 _]]]].
     - destruct (call_facts E D M _ _ _ _ _ _ _ Hnu Cl (ei_le e I)) as [F0 [F1 [F2 [F3 [F4 F5]]]]].
       rewrite S1, S2, F3, (ei_cn e I). repeat split; auto.
       + intros x Hx He. rewrite Hl in Hx. inversion Hx; subst x. cbn in *. auto.
@@ -540,6 +580,48 @@ Proof.
   - exact Hle.
   - exact Hcn.
   - intros t' tk' H'. destruct (Hcase _ _ H') as [[-> ->] | [Hd Ho]]; [exact Hnu | exact (ei_nu e I _ _ Ho)].
+  - (* a waiting recv() has nothing to return *)
+    intros t' tk' H' Hm' Hrw. destruct (Hcase _ _ H') as [[-> ->] | [Hd Ho]].
+    + cbn in Hm', Hrw.
+      assert (PcR : forall s0, pcall m s0 = PCall).
+      { intros s0. destruct (pcall_props m s0) as [_ [X _]]. apply X. intros Heq. rewrite Hm' in Heq. discriminate. }
+      assert (Cases : (exists x, lb = LSsl x /\ a_out x = SWantRead) \/ (readwait p = true /\ (forall x, lb <> LSsl x) /\ rcvd lb = [])).
+      { destruct SK as [x v Hl Hp Ho Hm2 W Dq Hp1 | x v Hl Hp Ho Hm2 W Dq Dn Hp1 | x v Hl Hp Ho Hm2 W Dq Dn Hp1 | x Hl Hp Ho W Dq Hp1 | x Hl Hp Ho W Dq Hp1
+                       | x r Hl Hp Ho W Dq Hp1 Hnr | k Hl Hp L W Dq Hp1 | k Hl Hp L W Es Hp1 | n Hl Hp L W Dq Hp1 | k Hl Hp W Dq Hp1 | d Hl Hp W Dq Hp1];
+          try congruence.
+        - exfalso. subst p1. destruct (flush_pc_cases fl s1 (KRet v)) as [X | [_ [[n [X _]] | [v0 [_ X]]]]];
+            try rewrite X in Hrw; try discriminate.
+        - left. eauto.
+        - subst p1. discriminate.
+        - subst p1. discriminate.
+        - right. subst p1 lb. rewrite Hp. split; [exact Hrw |]. split; [intros x Hx; discriminate | reflexivity].
+        - right. subst p1 lb. rewrite Hp. split; [| split; [intros x Hx; discriminate | reflexivity]].
+          destruct k; cbn in Hrw |- *; try reflexivity; try discriminate. rewrite PcR in Hrw. discriminate.
+        - right. subst lb. rewrite Hp. split; [reflexivity |]. split; [intros x Hx; discriminate | reflexivity].
+        - right. subst p1 lb. rewrite Hp. split; [| split; [intros x Hx; discriminate | reflexivity]].
+          destruct k; cbn in Hrw |- *; try reflexivity; try discriminate. rewrite PcR in Hrw. discriminate.
+        - exfalso. subst p1. rewrite PcR in Hrw. discriminate. }
+      destruct Cases as [[x [Hl Ho]] | [Rw [Hns Hrc]]].
+      * destruct Hid as [[i1 [o [wd [Hl' [Cl [_ [_ [R1 [P1 G1]]]]]]]]] | [Hl' _]]; [| exfalso; eapply Hl'; eauto].
+        rewrite Hl' in Hl. inversion Hl; subst x. cbn in Ho. subst o.
+        fold m in Cl. rewrite Hm' in Cl. cbn [call] in Cl.
+        destruct (read_wantread D _ _ _ _ Cl) as [-> [A [B C]]]. rewrite R1, P1, G1. auto.
+      * destruct Hid as [[i1 [o [wd [Hl' _]]]] | [_ [_ [_ [R1 [P1 G1]]]]]]; [exfalso; eapply Hns; eauto |].
+        rewrite R1, P1, G1, Hrc, app_nil_r. exact (ei_rd e I _ _ Hn Hm' Rw).
+    + (* another task steps: it is a send_all, which does not touch the receive side of the SSL object *)
+      pose proof (ei_rd e I _ _ Ho Hm' Hrw) as Old.
+      assert (Hmw : m = MWrite).
+      { destruct m eqn:Em; try reflexivity; try (exfalso; exact (Hnu eq_refl)); exfalso; apply Hd;
+          apply (ei_one e I t' t tk' tk Ho Hn); unfold pending_reader, pending;
+          try (rewrite Hm'; destruct (t_pc tk'); try discriminate; reflexivity);
+          fold m p; rewrite Em, Hne; reflexivity. }
+      pose proof (ei_wr e I _ _ Hn Hmw) as Wp. fold p in Wp.
+      destruct Hid as [[i1 [o [wd [Hl' [Cl [_ [_ [R1 [P1 G1]]]]]]]]] | [Hl' [_ [_ [R1 [P1 G1]]]]]].
+      * fold m in Cl. rewrite Hmw in Cl. cbn [call] in Cl. rewrite (write_unchanged E M _ _ _ _ _ Cl) in *. rewrite R1, P1, G1. exact Old.
+      * assert (Hrc : rcvd lb = []).
+        { destruct lb as [x | | tt]; try reflexivity. destruct tt; try reflexivity.
+          exfalso. destruct SK; try congruence. rewrite H0 in Wp. discriminate. }
+        rewrite R1, P1, G1, Hrc, app_nil_r. exact Old.
 Qed.
 
 End EndpointInvariant.
@@ -555,6 +637,7 @@ Notation sys_step := (sys_step fl).
 Notation ep_step := (ep_step fl E D M).
 Notation dstep := (dstep fl E D M).
 Notation pcall := (pcall fl).
+Notation EInv := (EInv D).
 
 Lemma EInv_spawn : forall e nin nout m n data e' nin' nout',
   ep_step e nin nout (CSpawn m n data) = Some (e', nin', nout') -> spawn_ok e m = true -> EInv e -> EInv e'.
@@ -583,15 +666,15 @@ Proof.
     unfold hs_done in Hd. fold (tasks_of e) in Hd. destruct (tasks_of e) as [| tk0 rest] eqn:Et; [discriminate |].
     destruct (t_meth tk0) eqn:Em0; try discriminate. destruct (t_pc tk0) as [ | | | | | r0] eqn:Ep0; try discriminate.
     destruct r0; try discriminate.
-    apply (ei_hs e I 0 tk0); [rewrite Et; reflexivity | exact Em0 | rewrite Ep0; reflexivity]. }
+    apply (ei_hs D e I 0 tk0); [rewrite Et; reflexivity | exact Em0 | rewrite Ep0; reflexivity]. }
   constructor.
-  - exact (LockInv_step fl _ _ _ _ Hstep (ei_lock e I)).
-  - intros t tk H' Hm'. destruct (Hcase _ _ H') as [Ho | [_ ->]]; [exact (ei_wr e I _ _ Ho Hm') |].
+  - exact (LockInv_step fl _ _ _ _ Hstep (ei_lock D e I)).
+  - intros t tk H' Hm'. destruct (Hcase _ _ H') as [Ho | [_ ->]]; [exact (ei_wr D e I _ _ Ho Hm') |].
     cbn in Hm'. cbn. destruct (pcall_props fl m s1) as [Y _]. exact (Y Hm').
-  - rewrite Hs, Hw. intros Hne. destruct (ei_wbio e I Hne) as [u [tku [Hu Fu]]]. exists u, tku. auto.
+  - rewrite Hs, Hw. intros Hne. destruct (ei_wbio D e I Hne) as [u [tku [Hu Fu]]]. exists u, tku. auto.
   - rewrite Hs. intros Hne. destruct m eqn:Em; try congruence.
-    + destruct (ei_deque e I Hne) as [u [tku [Hu Fu]]]. exists u, tku. auto.
-    + destruct (ei_deque e I Hne) as [u [tku [Hu Fu]]]. exists u, tku. auto.
+    + destruct (ei_deque D e I Hne) as [u [tku [Hu Fu]]]. exists u, tku. auto.
+    + destruct (ei_deque D e I Hne) as [u [tku [Hu Fu]]]. exists u, tku. auto.
     + exists (length (tasks_of e)), new. split.
       * rewrite Ht. rewrite nth_error_app2 by lia. rewrite Nat.sub_diag. reflexivity.
       * unfold new, dwit. cbn [t_meth t_pc is_write andb].
@@ -608,18 +691,20 @@ Proof.
         { apply existsb_exists. exists tk. split; [eapply nth_error_In; eauto | exact Pt]. }
         congruence. }
     destruct (Hcase _ _ H1) as [O1 | [L1 ->]]; destruct (Hcase _ _ H2) as [O2 | [L2 ->]].
-    + exact (ei_one e I _ _ _ _ O1 O2 P1 P2).
+    + exact (ei_one D e I _ _ _ _ O1 O2 P1 P2).
     + rewrite (NewR P2 _ _ O1) in P1. discriminate.
     + rewrite (NewR P1 _ _ O2) in P2. discriminate.
     + congruence.
-  - intros t tk H' Hm' Hr. rewrite Hid. destruct (Hcase _ _ H') as [Ho | [_ ->]]; [exact (ei_hs e I _ _ Ho Hm' Hr) |].
+  - intros t tk H' Hm' Hr. rewrite Hid. destruct (Hcase _ _ H') as [Ho | [_ ->]]; [exact (ei_hs D e I _ _ Ho Hm' Hr) |].
     cbn in Hm'. rewrite Hnewpc in Hr; [discriminate | rewrite Hm'; discriminate].
   - rewrite Hid. intros [t [tk [H' Hm']]]. destruct (Hcase _ _ H') as [Ho | [_ ->]].
-    + apply (ei_s2 e I). eauto.
+    + apply (ei_s2 D e I). eauto.
     + apply Hdone. exact Hm'.
-  - rewrite Hid. exact (ei_le e I).
-  - rewrite Hid. exact (ei_cn e I).
-  - intros t tk H'. destruct (Hcase _ _ H') as [Ho | [_ ->]]; [exact (ei_nu e I _ _ Ho) | exact Hm].
+  - rewrite Hid. exact (ei_le D e I).
+  - rewrite Hid. exact (ei_cn D e I).
+  - intros t tk H'. destruct (Hcase _ _ H') as [Ho | [_ ->]]; [exact (ei_nu D e I _ _ Ho) | exact Hm].
+  - intros t tk H' Hm' Hrw. rewrite Hid. destruct (Hcase _ _ H') as [Ho | [_ ->]]; [exact (ei_rd D e I _ _ Ho Hm' Hrw) |].
+    cbn in Hm'. rewrite Hnewpc in Hrw; [discriminate | rewrite Hm'; discriminate].
 Qed.
 
 Lemma EInv_step : forall e nin nout l e' nin' nout',
@@ -728,7 +813,7 @@ Qed.
 
 (* what being stuck means for one endpoint that satisfies the invariant *)
 Lemma ep_stuck_shape : forall e nin nout,
-  EInv e -> ep_stuck e nin nout ->
+  EInv D e -> ep_stuck e nin nout ->
   (forall t tk, nth_error (tasks_of e) t = Some tk -> pending tk = true -> t_pc tk = PRecving /\ nin = []) /\
   wbio (shp e) = [] /\ deque (shp e) = [].
 Proof.
@@ -743,7 +828,7 @@ Proof.
     apply Hst. intros; discriminate. }
   assert (NoFlush : forall t tk, nth_error (tasks_of e) t = Some tk -> forall k, t_pc tk <> PFlush k).
   { intros t tk Hn k Hp. destruct (send_lock (shp e)) eqn:L.
-    - destruct (ei_lock e I) as [Cs _]. unfold shp in L. rewrite L in Cs. cbn in Cs.
+    - destruct (ei_lock D e I) as [Cs _]. unfold shp in L. rewrite L in Cs. cbn in Cs.
       destruct (count_pos_inv is_sending (y_tasks (e_sys e))) as [u [tku [Hu Fu]]]; [lia |].
       destruct (t_pc tku) eqn:Pu; try discriminate. eapply (NoSending u tku Hu); eauto.
     - assert (St : exists r, step (t_meth tk) (t_buf tk) (shp e) (t_pc tk) LGo = Some r).
@@ -754,15 +839,15 @@ Proof.
       apply Hst. intros; discriminate. }
   assert (Reader : forall t tk, nth_error (tasks_of e) t = Some tk -> wr_pc (t_pc tk) = false -> reader_like (t_meth tk) = true).
   { intros t tk Hn Hw. destruct (t_meth tk) eqn:Em; try reflexivity.
-    - rewrite (ei_wr e I t tk Hn Em) in Hw. discriminate.
-    - exfalso. exact (ei_nu e I t tk Hn Em). }
+    - rewrite (ei_wr D e I t tk Hn Em) in Hw. discriminate.
+    - exfalso. exact (ei_nu D e I t tk Hn Em). }
   assert (NoRecvWait : forall t tk, nth_error (tasks_of e) t = Some tk -> forall n, t_pc tk <> PRecvWait n).
   { intros t tk Hn n Hp. destruct (recv_lock (shp e)) eqn:L.
-    - destruct (ei_lock e I) as [_ Cr]. unfold shp in L. rewrite L in Cr. cbn in Cr.
+    - destruct (ei_lock D e I) as [_ Cr]. unfold shp in L. rewrite L in Cr. cbn in Cr.
       destruct (count_pos_inv is_recving (y_tasks (e_sys e))) as [u [tku [Hu Fu]]]; [lia |].
       destruct (t_pc tku) eqn:Pu; try discriminate.
       assert (t = u).
-      { apply (ei_one e I t u tk tku Hn Hu); unfold pending_reader, pending.
+      { apply (ei_one D e I t u tk tku Hn Hu); unfold pending_reader, pending.
         - rewrite Hp. cbn. apply (Reader t tk Hn). rewrite Hp. reflexivity.
         - rewrite Pu. cbn. apply (Reader u tku Hu). rewrite Pu. reflexivity. }
       subst u. unfold tasks_of in Hn. rewrite Hn in Hu. inversion Hu; subst. congruence.
@@ -786,12 +871,12 @@ Proof.
       apply (enabled_lab e (b0 :: nin0) nout t tk _ r (CRcvd t 1) (e_ideal e) (e_written e) (e_got e) (skipn 1 (b0 :: nin0)) Hn St);
         [reflexivity |]. apply Hst. intros; discriminate.
   - destruct (wbio (shp e)) eqn:Ew; [reflexivity | exfalso].
-    destruct (ei_wbio e I) as [t [tk [Hn F]]]; [rewrite Ew; discriminate |].
+    destruct (ei_wbio D e I) as [t [tk [Hn F]]]; [rewrite Ew; discriminate |].
     unfold flusher in F. destruct (t_pc tk) eqn:Hp; try discriminate.
     + eapply NoCall; eauto.
     + eapply NoFlush; eauto.
   - destruct (deque (shp e)) eqn:Ed; [reflexivity | exfalso].
-    destruct (ei_deque e I) as [t [tk [Hn F]]]; [rewrite Ed; discriminate |].
+    destruct (ei_deque D e I) as [t [tk [Hn F]]]; [rewrite Ed; discriminate |].
     unfold dwit in F. apply andb_prop in F. destruct F as [_ F]. destruct (t_pc tk) eqn:Hp; try discriminate.
     eapply NoCall; eauto.
 Qed.
@@ -821,6 +906,16 @@ Proof.
   - specialize (H false cl Hc). unfold TlsDuplex.dstep in H. destruct (ep_step (dB c) (nAB c) (nBA c) cl) as [[[? ?] ?] |]; [discriminate | reflexivity].
 Qed.
 
+Lemma parse1_encs_none : forall recs, parse1 D (encs E recs) = None -> recs = [].
+Proof.
+  intros recs H. destruct recs as [| [t p] recs']; [reflexivity | exfalso].
+  rewrite (encs_cons E) in H.
+  rewrite <- (firstn_all (enc E t p ++ encs E recs')) in H.
+  rewrite (parse1_prefix E D DE) in H. rewrite app_length, (enc_length E) in H.
+  destruct (Nat.leb (2 + length p) (2 + length p + length (encs E recs'))) eqn:L; [discriminate |].
+  apply Nat.leb_gt in L. lia.
+Qed.
+
 Definition has_pending (e : endpoint) : Prop := exists t tk, nth_error (tasks_of e) t = Some tk /\ pending tk = true.
 
 Lemma duplex_progress : forall ls c,
@@ -831,23 +926,40 @@ Lemma duplex_progress : forall ls c,
   (has_pending (dB c) -> exists recs, i_rbio (e_ideal (dB c)) = encs E recs /\
        e_got (dB c) ++ i_plain (e_ideal (dB c)) ++ data_of recs = e_written (dA c)) /\
   (has_pending (dA c) -> exists recs, i_rbio (e_ideal (dA c)) = encs E recs /\
-       e_got (dA c) ++ i_plain (e_ideal (dA c)) ++ data_of recs = e_written (dB c)).
+       e_got (dA c) ++ i_plain (e_ideal (dA c)) ++ data_of recs = e_written (dB c)) /\
+  (* a recv() that is still waiting has returned everything the other side has written so far *)
+  (forall t tk, nth_error (tasks_of (dB c)) t = Some tk -> pending tk = true -> t_meth tk = MRead ->
+       e_got (dB c) = e_written (dA c)) /\
+  (forall t tk, nth_error (tasks_of (dA c)) t = Some tk -> pending tk = true -> t_meth tk = MRead ->
+       e_got (dA c) = e_written (dB c)).
 Proof.
   intros ls c H Hst.
-  destruct (GInv_exec fl E D M _ _ _ H (conj (EInv_init true) (EInv_init false))) as [IA IB].
+  destruct (GInv_exec fl E D M _ _ _ H (conj (EInv_init D true) (EInv_init D false))) as [IA IB].
   destruct (stuck_ep c Hst) as [SA SB].
   destruct (ep_stuck_shape fl E D M _ _ _ IA SA) as [PA [WA DA]].
   destruct (ep_stuck_shape fl E D M _ _ _ IB SB) as [PB [WB DB]].
   destruct (DInv_exec fl E D M DE _ _ _ (gexec_dexec fl E D M _ _ _ H) (DInv_init E)) as [[r1 [S1 P1]] [[r2 [S2 P2]] _]].
   unfold ep_wbio, ep_deque in *. fold (shp (dA c)) (shp (dB c)) in *.
   split; [exact PA |]. split; [exact PB |]. split; [exact WA |]. split; [exact WB |]. split; [exact DA |]. split; [exact DB |].
-  split.
-  - intros [t [tk [Hn Hp]]]. destruct (PB t tk Hn Hp) as [_ Hnet]. exists r1.
+  assert (QB : has_pending (dB c) -> exists recs, i_rbio (e_ideal (dB c)) = encs E recs /\
+       e_got (dB c) ++ i_plain (e_ideal (dB c)) ++ data_of recs = e_written (dA c)).
+  { intros [t [tk [Hn Hp]]]. destruct (PB t tk Hn Hp) as [_ Hnet]. exists r1.
     rewrite Hnet, WA in S1. cbn in S1. rewrite app_nil_r in S1. split; [exact S1 |].
-    rewrite DA in P1. cbn in P1. rewrite app_nil_r in P1. exact P1.
-  - intros [t [tk [Hn Hp]]]. destruct (PA t tk Hn Hp) as [_ Hnet]. exists r2.
+    rewrite DA in P1. cbn in P1. rewrite app_nil_r in P1. exact P1. }
+  assert (QA : has_pending (dA c) -> exists recs, i_rbio (e_ideal (dA c)) = encs E recs /\
+       e_got (dA c) ++ i_plain (e_ideal (dA c)) ++ data_of recs = e_written (dB c)).
+  { intros [t [tk [Hn Hp]]]. destruct (PA t tk Hn Hp) as [_ Hnet]. exists r2.
     rewrite Hnet, WB in S2. cbn in S2. rewrite app_nil_r in S2. split; [exact S2 |].
-    rewrite DB in P2. cbn in P2. rewrite app_nil_r in P2. exact P2.
+    rewrite DB in P2. cbn in P2. rewrite app_nil_r in P2. exact P2. }
+  split; [exact QB |]. split; [exact QA |]. split.
+  - intros t tk Hn Hp Hm. destruct (QB (ex_intro _ t (ex_intro _ tk (conj Hn Hp)))) as [recs [Rb Eq]].
+    destruct (PB t tk Hn Hp) as [Hpc _].
+    destruct (ei_rd D _ IB t tk Hn Hm) as [Pl [_ Pn]]; [rewrite Hpc; reflexivity |].
+    rewrite Rb in Pn. apply parse1_encs_none in Pn. subst recs. rewrite Pl in Eq. cbn in Eq. rewrite app_nil_r in Eq. exact Eq.
+  - intros t tk Hn Hp Hm. destruct (QA (ex_intro _ t (ex_intro _ tk (conj Hn Hp)))) as [recs [Rb Eq]].
+    destruct (PA t tk Hn Hp) as [Hpc _].
+    destruct (ei_rd D _ IA t tk Hn Hm) as [Pl [_ Pn]]; [rewrite Hpc; reflexivity |].
+    rewrite Rb in Pn. apply parse1_encs_none in Pn. subst recs. rewrite Pl in Eq. cbn in Eq. rewrite app_nil_r in Eq. exact Eq.
 Qed.
 
 End Final.
